@@ -41,18 +41,18 @@ import (
 )
 
 type Clause struct {
-	Assumed bool // `assume`: a free assumption on entry (listed in the evidence), not an obligation of callers
-	Kind  string // requires ensures invariant
-	Name  string
-	Tags  []string
-	Meta  string
-	Expr  CExpr
-	Src   string
-	Loop  int
-	Label string
-	File  string
-	Line  int
-	Owner string
+	Assumed bool   // `assume`: a free assumption on entry (listed in the evidence), not an obligation of callers
+	Kind    string // requires ensures invariant
+	Name    string
+	Tags    []string
+	Meta    string
+	Expr    CExpr
+	Src     string
+	Loop    int
+	Label   string
+	File    string
+	Line    int
+	Owner   string
 }
 
 type LetDef struct {
@@ -89,6 +89,7 @@ type Contract struct {
 	Requires   []*Clause
 	Ensures    []*Clause
 	CallSites  []*Clause
+	Covers     []*Clause // covers[..] LABEL name: cond -- the call LABEL is executed whenever cond holds (per iteration / per call)
 	HasCallees bool
 	Callees    []string
 	CalleeTags []string
@@ -134,12 +135,12 @@ type SpecLemma struct {
 
 type GInv struct {
 	IsPkgInv bool
-	Name    string
-	Expr    CExpr
-	Src     string
-	File    string
-	Line    int
-	PkgPath string
+	Name     string
+	Expr     CExpr
+	Src      string
+	File     string
+	Line     int
+	PkgPath  string
 }
 
 type SpecConst struct {
@@ -169,7 +170,7 @@ func NewSpecs() *Specs {
 	return &Specs{Fns: map[string]*SpecFn{}, Consts: map[string]*SpecConst{}, Defines: map[string]*SpecDefine{}, Ghosts: map[string]string{}, IfacePure: map[string]bool{}}
 }
 
-var directiveRe = regexp.MustCompile(`^(sort|fn|const|define|axiom|lemma|ginv|pkginv|noinv|needsinv|inline|ghost|errattr|ifacepure|package|func|trusted|pure|modifies|let|requires|assume|ensures|callsite|callees|loop|invariant|decreases|bind)\b`)
+var directiveRe = regexp.MustCompile(`^(sort|fn|const|define|axiom|lemma|ginv|pkginv|noinv|needsinv|inline|ghost|errattr|ifacepure|package|func|trusted|pure|modifies|let|requires|assume|ensures|callsite|covers|callees|loop|invariant|decreases|bind)\b`)
 
 type logicalLine struct {
 	text string
@@ -496,6 +497,23 @@ func (s *Specs) LoadFile(path string, repoStyle bool, defaultPkg string) error {
 			cl := &Clause{Kind: "callsite", Name: m[3], Expr: e, Src: m[4], File: path, Line: ll.line, Owner: cur.FuncName, Label: m[2]}
 			cl.Tags = parseTags(m[1])
 			cur.CallSites = append(cur.CallSites, cl)
+		case "covers":
+			// covers[Cxx] LABEL NAME: EXPR   -- whenever EXPR holds at the end of an iteration of the innermost loop
+			// around the call LABEL (at a return, if the call is in no loop), that iteration (that call) executed LABEL
+			if cur == nil {
+				return errf("covers outside func block")
+			}
+			m := regexp.MustCompile(`^covers(\[[^\]]*\])?\s+(\S+)\s+([A-Za-z0-9_.\-]+)\s*:\s*(.*)$`).FindStringSubmatch(t)
+			if m == nil {
+				return errf("bad covers (need `covers[tags] label name: expr`)")
+			}
+			e, err := ParseCExpr(m[4])
+			if err != nil {
+				return errf("%v", err)
+			}
+			cl := &Clause{Kind: "covers", Name: m[3], Expr: e, Src: m[4], File: path, Line: ll.line, Owner: cur.FuncName, Label: m[2]}
+			cl.Tags = parseTags(m[1])
+			cur.Covers = append(cur.Covers, cl)
 		case "requires", "assume", "ensures", "invariant":
 			if cur == nil {
 				return errf("%s outside func block", word)
